@@ -181,6 +181,9 @@ class World:
         v1 = P.CONNECT.pack(op["logger"], op["daemon"])
         info = dict(id=op["id"], logger=op["logger"], daemon=op["daemon"], multi=op["multi"], name=name,
                     pid=op.get("pid", 4242))
+        if op.get("short"):
+            # a client that leaves the (empty) name away: the frame ends after the pid
+            v2 = v2[:12]
         if op["ver"] in ("v2", "v2v1"):
             self._send(m, P.build(P.MT_CONNECT_V2, v2, src_mod=op.get("hsrc", op["id"]), timecode=self.timecode),
                        dict(kind="connect", ver="v2", **info))
